@@ -62,6 +62,8 @@ inductive Path
   | valChunks     -- <np_chunks_path>/val_chunks/*.npz
   | bestCkptV1    -- <save_ckpt_path>/best-v1.ckpt  (second run into a folder that already has best.ckpt)
   | lastCkptV1    -- <save_ckpt_path>/last-v1.ckpt
+  | cwdTrainChunks -- ./train_chunks/*.npz  (low-memory fallback: chunks go to the working directory)
+  | cwdValChunks   -- ./val_chunks/*.npz
   deriving DecidableEq, Repr
 
 /-- Which stage of the configuration a file holds. -/
@@ -197,6 +199,30 @@ def traceAbort (v : Version) (f : Flags) (rounds : List Bool) : List Event :=
 /-- The 1-epoch run of the code as it is on the pinned tree. -/
 def asIs (f : Flags) : List Event := traceG .asIs f [true]
 
+/-! ## Low-memory fallback
+
+`_create_data_loaders_torch_dataset` (called by `train()` after the re-save, before `fit`): with the
+in-memory framework requested, if 1.1 × the estimated cache size exceeds
+`psutil.virtual_memory().available` the trainer switches itself to the chunk framework —
+`self.data_pipeline_fw := "torch_dataset_np_chunks"`, chunk directories := `./train_chunks`,
+`./val_chunks` (the working directory, *not* `np_chunks_path`).  The configuration object is not
+touched, no chunks `config.yaml` is written (that happened — or not — in `__init__`), and the
+`finally` block, which looks at `self.data_pipeline_fw`, deletes those two directories iff
+`delete_chunks_after_training`.  With the chunk framework requested the check is not made. -/
+
+def chunkPhaseLM : List Event := [.write .cwdTrainChunks .data, .write .cwdValChunks .data]
+
+def finallyPhaseLM (v : Version) (f : Flags) : List Event :=
+  if runIdRaises v f then [.raise]
+  else
+    [.write .trainingCfg (cfg .used (blankTrain v f) f.wandb)]
+    ++ (if f.deleteChunks then [.delete .cwdTrainChunks, .delete .cwdValChunks] else [])
+
+/-- The trace of a fresh run on a host where the memory check fails. -/
+def traceLM (v : Version) (f : Flags) (rounds : List Bool) : List Event :=
+  if f.fw = .npChunks then traceG v f rounds
+  else initPhase v f ++ resavePhase v f ++ chunkPhaseLM ++ fitPhase v f rounds ++ finallyPhaseLM v f
+
 /-! ## Two-run history: a second run that re-uses the chunks of the first (`use_existing_chunks`)
 
 Run 1 is an ordinary fresh run with the chunk framework and `delete_chunks_after_training = False`
@@ -315,10 +341,11 @@ def Path.str : Path → String
   | .bestCkpt => "best_ckpt" | .lastCkpt => "last_ckpt"
   | .trainChunks => "train_chunks" | .valChunks => "val_chunks"
   | .bestCkptV1 => "best_ckpt_v1" | .lastCkptV1 => "last_ckpt_v1"
+  | .cwdTrainChunks => "cwd_train_chunks" | .cwdValChunks => "cwd_val_chunks"
 
 def Path.all : List Path :=
   [.initialCfg, .trainingCfg, .chunksCfg, .bestCkpt, .lastCkpt, .trainChunks, .valChunks,
-   .bestCkptV1, .lastCkptV1]
+   .bestCkptV1, .lastCkptV1, .cwdTrainChunks, .cwdValChunks]
 
 def Which.str : Which → String
   | .supplied => "supplied" | .prepared => "prepared" | .used => "used" | .stale => "stale"
